@@ -236,7 +236,8 @@ class SymCtx(BaseCtx):
                 eng.stats['by_solver'] += 1
             self.obligations.append((label, 'discharged', how))
         elif r == 'sat':
-            self.violations.append(dict(label=label, inputs=self._inputs(model), known=None))
+            gm = eng.generic_model(outside)
+            self.violations.append(dict(label=label, inputs=self._inputs(gm if gm is not None else model), known=None))
             self.obligations.append((label, 'violated', how))
         else:
             eng.stats['inconclusive'] += 1
